@@ -1,7 +1,7 @@
 (* Property C10 — path addressing is exact.  Only statements and [exact]; proofs live in Proofs/KeyPath*.v, Proofs/Hier*.v. *)
 From PG Require Import Common.Tactics Model.KeyPath Model.Hier
   Proofs.KeyPathParse Proofs.KeyPathArith Proofs.KeyPathOrder
-  Proofs.KeyPathSetBase Proofs.KeyPathSetIter Proofs.KeyPathSetThm.
+  Proofs.KeyPathSetBase Proofs.KeyPathSetIter Proofs.KeyPathSetThm Proofs.HierTraverse.
 
 (* 1. A key path of admissible keys (integers; non-empty strings with balanced brackets) prints to a string
       that parses back to the same keys.  Any number of keys, any lengths. *)
@@ -93,3 +93,35 @@ Theorem C10_set_dollar_refuted :
   exists t, add_go {| q_dollar := true |} false [KStr [c_dollar]] (TDict []) = Some (TDict t, true) /\ paths t = [[]] /\ contains_go {| q_dollar := true |} [] (TDict t) = Some true.
 Proof. exact dollar_witness. Qed.
 Print Assumptions C10_set_dollar_refuted.
+
+(* 6. Traversal.  [nodes v root] is the pre-order list of (path, node); at_path v s x says x is the node of v at the
+      canonical path s (dict keys, list positions from 0); wfv = dict keys are distinct (as Python builds dicts).
+      utils.traverse with visitors that always continue, and pg.traverse with visitors that always ENTER, log in
+      pre-order exactly the nodes: every node once, no path twice, and the reported path looked up from the root
+      (KeyPath.query) returns that node. *)
+Theorem C10_traverse_once : forall v root, wfv v ->
+  let r := trav (fun _ _ => true) (fun _ _ => true) v root in
+  snd r = true /\ pres (fst r) = nodes v root /\
+  NoDup (map fst (nodes v root)) /\
+  (forall p x, In (p, x) (nodes v root) <-> exists s, p = root ++ s /\ at_path v s x) /\
+  (forall s x, at_path v s x -> lookup v s = inr x).
+Proof.
+  intros v root Hw. destruct (trav_visits_all v root) as [A B].
+  cbv zeta. split; [exact A |]. split; [exact B |]. split; [apply nodes_nodup; assumption |].
+  split; [intros; apply nodes_iff | intros; apply at_lookup; assumption].
+Qed.
+Print Assumptions C10_traverse_once.
+
+Theorem C10_pg_traverse_once : forall pre post v, (forall p x, pre p x = AEnter) -> (forall p x, post p x <> AStop) ->
+  snd (strav pre post v []) = true /\ pres (fst (strav pre post v [])) = nodes v [].
+Proof. intros pre post v H1 H2. apply (strav_visits_all pre post H1 H2 v []). Qed.
+Print Assumptions C10_pg_traverse_once.
+
+(*    pg.query with enter_selected=True returns exactly the selected nodes (sound and complete), each under its path. *)
+Theorem C10_query_sound_complete : forall sel v p x,
+  In (p, x) (squery sel true v) <-> (exists s, p = s /\ at_path v s x) /\ sel p x = true.
+Proof.
+  intros sel v p x. rewrite squery_enter_selected, filter_In. cbn [fst snd].
+  rewrite (nodes_iff v [] p x). cbn [app]. tauto.
+Qed.
+Print Assumptions C10_query_sound_complete.
